@@ -239,11 +239,11 @@ def do_for(E: Engine, s: ast.For, st: State):
     head_kinds = {nm: kind_of(b.env[nm]) for nm in names if nm in b.env and not isinstance(b.env[nm], Poison)}
     ctl = LoopCtl()
     E.loop_stack.append(ctl)
+    E.canaries.append(("canary:%s-body" % L, list(b.pc)))
     try:
-        ends = E.exec_block(s.body, b)
+        ends = exec_body_with_asserts(E, s.body, b, sp, L)
     finally:
         E.loop_stack.pop()
-    E.canaries.append(("canary:%s-body" % L, list(b.pc)))
     for e in ends + ctl.continues:
         for nm, kd in head_kinds.items():
             v = e.env.get(nm)
@@ -281,6 +281,28 @@ def do_for(E: Engine, s: ast.For, st: State):
     for br in ctl.breaks:
         out.append(br)
     return out
+
+
+def exec_body_with_asserts(E: Engine, body, st, sp, L):
+    """ghost `assert`s (prove, then assume) placed before body statement i: sp["assert_at"] = {i: [exprs]}"""
+    hooks = sp.get("assert_at") or {}
+    if not hooks:
+        return E.exec_block(body, st)
+    states = [st]
+    for i in range(len(body) + 1):
+        for j, expr in enumerate(hooks.get(i, [])):
+            for stx in states:
+                try:
+                    g = toz(E.truth(E.evs(expr, stx)))
+                except OutsideSubset as e:
+                    raise ContractStale("assert %r: %s" % (expr, e))
+                E.obl.append(_ob(E, "assert:%s@%d#%d" % (L, i, j), stx, g))
+                stx.pc.append(g)
+        if i < len(body):
+            states = E.exec_block([body[i]], states)
+            if not states:
+                break
+    return states
 
 
 def do_while(E: Engine, s: ast.While, st: State):
